@@ -1,3 +1,4 @@
+import NgVerif.Proofs.Source
 import NgVerif.Proofs.Scales
 import NgVerif.Proofs.Enc
 /-
@@ -113,5 +114,19 @@ theorem generated_scales_served_by_encoders (n : Nat) (full : InfoM) (ty enc : O
         split at he <;> simp_all <;> (cases s0.csegBlock <;> simp)
     apply Enc.select_complete
     exact ⟨_, _, _, rfl, rfl, he, by simp only [hch]; exact_mod_cast hnc, hty, rfl, hblk, hct⟩
+
+/-- TRANSLATED SOURCE. The per-level arithmetic of `fill_scales_for_dyadic_pyramid.downscale_info` as it stands in
+    /repo's source (translated on every run): the axis factor `2 ** max(0, level - delay)`, the scale size
+    `ceil_div(size, factor)`, the anisotropy factor `max(0, max_delay - delay - level)`, the base chunk exponent and
+    the chunk size `2 ** (base + factor)` are the quantities `fac`, `sizeAt` and `chunkExps` of the model -/
+theorem source_scale_arithmetic_is_the_model (s L d maxd e sum af : Nat) (hs : 1 ≤ s) (hbase : (sum + 1) / 3 ≤ e) :
+    Generated.Src.scaleFactor (scale_level := L) (delay := d) = ((fac L d : Nat) : Int) ∧
+    Generated.Src.scaleSize (sz := s) (axis_factor := ((fac L d : Nat) : Int)) = ((sizeAt s L d : Nat) : Int) ∧
+    Generated.Src.anisotropyFactor (max_delay := maxd) (delay := d) (scale_level := L) = ((maxd - d - L : Nat) : Int) ∧
+    Generated.Src.baseChunkExponent (target_chunk_exponent := e) (sum_anisotropy_factors := sum)
+      = ((e - (sum + 1) / 3 : Nat) : Int) ∧
+    Generated.Src.chunkSizeOfExponent (base_chunk_exponent := ((e - (sum + 1) / 3 : Nat) : Int)) (anisotropy_factor := af)
+      = ((2 ^ ((e - (sum + 1) / 3) + af) : Nat) : Int) :=
+  Source.scales_arith_eq_model s L d maxd e sum af hs hbase
 
 end NgVerif.Props.C08
